@@ -151,6 +151,8 @@ def timer_tag(rt):
 
 def lifecycle_sig(pid, kind, case, rt):
     tag = timer_tag(rt)
+    proto = (rt[0].get("proto") if rt and isinstance(rt[0], dict) else None) or "http1"
+    pfx = "" if proto == "http1" else proto + ":"
     if kind in HANG_KINDS and tag:
-        return "%s:timeout-protection-lost:%s" % (pid, tag)
-    return "%s:%s:hold=%s:during=%s" % (pid, kind, case.get("hold"), case.get("during"))
+        return "%s:%stimeout-protection-lost:%s" % (pid, pfx, tag)
+    return "%s:%s%s:hold=%s:during=%s" % (pid, pfx, kind, case.get("hold"), case.get("during"))
